@@ -21,12 +21,14 @@ import (
 
 // Scenario is one closed concurrent system.
 type Scenario struct {
-	Name   string   `json:"name"`
-	Driver string   `json:"driver"`
-	Setup  []hx.Op  `json:"setup"` // run sequentially before the concurrent part
-	Ops    []hx.Op  `json:"ops"`   // one per thread
-	Bound  int      `json:"bound"` // preemption bound; <0 = unbounded
-	Tags   []string `json:"tags,omitempty"`
+	Name   string  `json:"name"`
+	Driver string  `json:"driver"`
+	Setup  []hx.Op `json:"setup"` // run sequentially before the concurrent part
+	Ops    []hx.Op `json:"ops"`   // one per thread
+	Bound  int     `json:"bound"` // preemption bound; <0 = unbounded
+	// Fault is one injected cluster-side fault for the concurrent part (use OnThread to aim it at one operation).
+	Fault *sim.Fault `json:"fault,omitempty"`
+	Tags  []string   `json:"tags,omitempty"`
 }
 
 // Step is one granted call.
@@ -72,7 +74,7 @@ func start(sc *Scenario) (*run, error) {
 	for _, op := range sc.Setup {
 		w.Exec(op, nil)
 	}
-	w.Sim.BeginOp(nil)
+	w.Sim.BeginOp(sc.Fault)
 	r := &run{sc: sc, w: w, events: make(chan event, len(sc.Ops)+1), results: make([]hx.Result, len(sc.Ops)), done: make([]bool, len(sc.Ops)), parked: make([]string, len(sc.Ops))}
 	if sc.Driver == "memory" {
 		_, r.mem = w.NewStorage(0, nil)
